@@ -99,6 +99,62 @@ fn child_transcript(bin: &std::path::Path, cfg: &RunCfg, scratch: &str, prop: &s
         .map(|l| l.to_string())
 }
 
+/// Runs the configuration in a child process of its own and reports whether it failed to finish
+/// within `limit` of real time (it is killed then). A run takes milliseconds; the limits used are
+/// three to four orders of magnitude above that.
+pub fn child_times_out(
+    bin: &std::path::Path,
+    cfg: &RunCfg,
+    scratch: &str,
+    prop: &str,
+    limit: std::time::Duration,
+) -> bool {
+    let file = ReplayFile {
+        property: prop.to_string(),
+        base_seed: 0,
+        run_index: 0,
+        class: "trial".into(),
+        message: String::new(),
+        event_hash: 0,
+        minimised: false,
+        original_ops: 0,
+        original_deviations: 0,
+        cfg: cfg.clone(),
+        trace: vec![],
+    };
+    let path = format!("{scratch}/trial-hang-{}.json", std::process::id());
+    if std::fs::write(&path, serde_json::to_string(&file).unwrap_or_default()).is_err() {
+        return false;
+    }
+    file_times_out(bin, &path, limit)
+}
+
+pub fn file_times_out(bin: &std::path::Path, path: &str, limit: std::time::Duration) -> bool {
+    let Ok(mut child) = Command::new(bin)
+        .arg("transcript")
+        .arg(path)
+        .stdout(Stdio::null())
+        .stderr(Stdio::null())
+        .spawn()
+    else {
+        return false;
+    };
+    let t0 = Instant::now();
+    loop {
+        match child.try_wait() {
+            Ok(Some(_)) => return false,
+            Ok(None) => {}
+            Err(_) => return false,
+        }
+        if t0.elapsed() > limit {
+            let _ = child.kill();
+            let _ = child.wait();
+            return true;
+        }
+        std::thread::sleep(std::time::Duration::from_millis(10));
+    }
+}
+
 /// Runs the configuration in a child process; None if the child survives, otherwise whether it
 /// died after the terminal action (drop / into_seq_iter) had begun.
 fn child_abort_in_terminal(
@@ -301,6 +357,7 @@ pub fn check(prop: &str, tier: &str) -> i32 {
     let mut progress: BTreeMap<usize, Instant> = BTreeMap::new();
     let mut stalled: std::collections::BTreeSet<usize> = Default::default();
     let mut stall_errors: Vec<String> = Vec::new();
+    let mut stalled_runs: Vec<(u64, usize)> = Vec::new();
     let mut running = 0usize;
     loop {
         while running < nworkers {
@@ -322,6 +379,9 @@ pub fn check(prop: &str, tier: &str) -> i32 {
                     if live.contains_key(w) && !stalled.contains(w) && t.elapsed() > stall_limit {
                         stalled.insert(*w);
                         let at = live.get(w).map(|e| e.1).unwrap_or(0);
+                        if let Some(e) = live.get(w) {
+                            stalled_runs.push((e.1, e.0.variant));
+                        }
                         stall_errors.push(format!(
                             "worker {w} made no progress for {} s while executing run {at}: a thread is blocked in something the simulator does not schedule; worker killed, its slice abandoned",
                             stall_limit.as_secs()
@@ -497,6 +557,52 @@ pub fn check(prop: &str, tier: &str) -> i32 {
             lines.push(format!(
                 "violation class=process-abort kind={:?} len={} : {}",
                 file.cfg.kind, file.cfg.len, file.message
+            ));
+            lines.push(format!("VIOLATION property={prop} replay={path}"));
+            abort_violations += 1;
+            exit_code = 1;
+        }
+    }
+    // C09 ("every call returns"): a run that does not finish without ever reaching a scheduling
+    // point is outside the simulator's own hang verdict; it is confirmed alone in a fresh
+    // process against a real-time limit far above what a run takes
+    if prop == "C09" {
+        stalled_runs.sort();
+        stalled_runs.dedup();
+        for (idx, variant) in stalled_runs.iter().take(2) {
+            let cfg0 = crate::gen::generate(prop, seed, *idx);
+            let bin = exes[*variant].clone();
+            if !child_times_out(&bin, &cfg0, &outdir, prop, std::time::Duration::from_secs(60)) {
+                continue;
+            }
+            let original_ops = cfg0.pre.len() + cfg0.threads.iter().map(|t| t.len()).sum::<usize>();
+            let (cfg, _) = crate::replay::minimise_external(
+                cfg0,
+                std::time::Duration::from_secs(90),
+                |c| child_times_out(&bin, c, &outdir, prop, std::time::Duration::from_secs(5)),
+            );
+            let file = ReplayFile {
+                property: prop.to_string(),
+                base_seed: seed,
+                run_index: *idx,
+                class: "no-return".to_string(),
+                message: "a call did not return within 60 s of real time and reached no scheduling point (no atomic operation, no access to the wrapped iterator) in that time: an endless loop or a blocking primitive outside the crate's atomics; a run takes milliseconds".to_string(),
+                event_hash: *variant as u64,
+                minimised: true,
+                original_ops,
+                original_deviations: 0,
+                cfg,
+                trace: vec![],
+            };
+            let path = format!("{final_dir}/{prop}-{seed}-{idx}-noreturn.json");
+            std::fs::write(&path, serde_json::to_string_pretty(&file).expect("json"))
+                .expect("write replay");
+            lines.push(format!(
+                "violation class=no-return kind={:?} len={} threads={} : {}",
+                file.cfg.kind,
+                file.cfg.len,
+                file.cfg.threads.len(),
+                file.message
             ));
             lines.push(format!("VIOLATION property={prop} replay={path}"));
             abort_violations += 1;
